@@ -179,7 +179,7 @@ def op_case(draw, mode):
         return (es + sh) if e == 'start' else (sh + es) if e == 'end' else sh
 
     dt = draw(st.sampled_from(['float32', 'float64', 'int32'])) if mode == 'x64' else draw(st.sampled_from(['float32', 'float32', 'int32']))
-    nleaves = draw(st.sampled_from([1, 1, 2, 3]))
+    nleaves = draw(st.sampled_from([1, 1, 2, 3, 1, 1, 2, 3, 9, 12]))  # (9, 12: a pytree of detectors / of frequency maps)
     per_leaf = nleaves > 1 and draw(st.booleans())
     default = draw(st.integers(0, 3)) == 0
     if default:
@@ -220,7 +220,7 @@ def op_case(draw, mode):
         blocks_shapes.append(list(bshape))
     if not per_leaf:
         blocks_shapes = blocks_shapes[:1]
-    layout = 'leaf' if nleaves == 1 else draw(st.sampled_from(['tuple', 'list', 'dict']))
+    layout = 'leaf' if nleaves == 1 else draw(st.sampled_from(['tuple', 'list', 'dict'] if nleaves <= 3 else ['tuple', 'list']))
     # leaves of one pytree may have different dtypes (every leaf is contracted on its own, with its own promotion)
     ldts = None
     if nleaves > 1 and draw(st.integers(0, 2)) == 0:
